@@ -176,8 +176,16 @@ def body_rewrites(src, lo, hi, edits, subst, stats, opts):
                 rep = "".join(f"let _ = ({k}); " for k in keep)
                 if not semi:
                     rep = "{ " + rep + "}"
-                edits.add(t.start, toks[end_tok].end, rep, "R1",
-                          f"log macro {mac}! removed; re-emitted args: {keep}; call args assumed panic-free: {dropped_calls}")
+                # attributes on the macro statement (`#[cfg(feature = "defmt")] fmt::error!(..)`) go with it: left behind they
+                # would attach to - and could compile away - the NEXT statement
+                a0 = src.attrs_before(i, lo)
+                attr_note = ""
+                if a0 < i:
+                    if keep:
+                        raise LostAnchor(f"{src.path}:{src.line_of(t.start)}: attribute on a log macro whose arguments must be kept")
+                    attr_note = "; attributes removed with it: " + norm(text[toks[a0].start:t.start])
+                edits.add(toks[a0].start, toks[end_tok].end, rep, "R1",
+                          f"log macro {mac}! removed; re-emitted args: {keep}; call args assumed panic-free: {dropped_calls}{attr_note}")
                 stats["R1"] = stats.get("R1", 0) + 1
                 # nested rewrites inside kept args are not applied (kept verbatim)
                 i = end_tok + 1
@@ -364,7 +372,7 @@ def parse_block(body):
     for line in body.split("\n"):
         s = line.strip()
         if s.startswith("@entry") or s.startswith("@loop_end") or s.startswith("@loop_start") or s.startswith("@loop") or s.startswith("@before") or s.startswith("@after") or s.startswith("@closure") \
-                or s.startswith("@rewrite"):
+                or s.startswith("@rewrite") or s.startswith("@hoist") or s.startswith("@try"):
             parts = shlex.split(s)
             cur = dict(kind=parts[0][1:], args=parts[1:], text=[])
             subs.append(cur)
@@ -534,6 +542,24 @@ def gen_fn(repo, d, body, report):
             edits.add(toks[p0].start, toks[p1].end, hdr + "\n" + text + "\n{ " + bind, "R7", "closure header")
             edits.add(toks[b1].end, toks[b1].end, " }", "R7", "")
             stats["R7"] = stats.get("R7", 0) + 1
+        elif sub["kind"] == "try":
+            # R16: `<operand>?` -> `match <operand> { Ok(v) => v, Err(e) => return Err(From::from(e)) }` - the desugaring of `?`
+            # on a Result given in the Rust reference (Verus forgets the error VALUE across the built-in `?` when a From
+            # conversion is involved).  The anchor is the operand text followed by `?`; on an Option operand the result
+            # does not type-check (exit 2), it can never verify by accident.
+            o = kv(sub["args"][1:])
+            a, b = src.find_seq(f["body_open"] + 1, f["body_close"], sub["args"][0], int(o.get("nth", 1)))
+            if toks[b].text != "?":
+                raise LostAnchor(f"{d['file']}::{d['name']}: @try anchor must end in `?`")
+            edits.add(toks[a].start, toks[a].start, "(match ", "R16", f"`?` desugared: {sub['args'][0]}")
+            edits.add(toks[b].start, toks[b].end, " { Ok(__v) => __v, Err(__e) => return Err(From::from(__e)) })", "R16", "")
+            stats["R16"] = stats.get("R16", 0) + 1
+        elif sub["kind"] == "hoist":
+            # R15: a type declared inside the function body is lifted out of it (the template extracts the same
+            # declaration at module level with `/*@type ... deep=1 @*/`); nothing else of the body changes
+            ty = src.find_type(sub["args"][0], (f["body_open"], f["body_close"]), deep=True)
+            edits.add(toks[ty["attrs"]].start, toks[ty["end"]].end, "", "R15", f"nested type {sub['args'][0]} hoisted to module level")
+            stats["R15"] = stats.get("R15", 0) + 1
         elif sub["kind"] == "rewrite":
             # explicit, logged, non-verbatim edit: @rewrite "<from>" "<to>" rule=<Rxx> [nth=k]
             o = kv(sub["args"][2:])
@@ -603,7 +629,7 @@ def find_closures(src, lo, hi):
 def gen_type(repo, d, body, report):
     src = open_src(repo, d["file"])
     scope = src.find_mod(d["mod"]) if "mod" in d else None
-    ty = src.find_type(d["name"], scope)
+    ty = src.find_type(d["name"], scope, deep=d.get("deep") == "1")
     toks = src.toks
     edits = Edits()
     stats = {}
@@ -627,6 +653,8 @@ def gen_type(repo, d, body, report):
     if toks[s].text == "pub" and toks[s + 1].text == "(":
         cl = match_close(toks, s + 1)
         edits.add(toks[s + 1].start, toks[cl].end, "", "R5", "visibility")
+    elif toks[s].text != "pub":
+        edits.add(toks[s].start, toks[s].start, "pub ", "R5", "visibility")
     # field visibilities pub(crate) -> pub
     for i in range(ty["kw"], hi):
         if toks[i].text == "pub" and toks[i + 1].text == "(" and i > s:
